@@ -26,7 +26,7 @@ BOUND = {"quick": "deviation bound d=2 around the centre of 2 Voronoi bases (+1 
 ASSUMPTIONS = ["a two-point interface is the straight segment through its two points",
                "fit budget (L2): taubinSVD 1e-9 on any curved arc; dlite 1e-7 on arcs turning >= 0.1 rad (leastsq termination tolerance), 5e-3 on flatter arcs; collinear points exact; translations <= 10 tissue sizes",
                "L1 uses the library's public calculate_circle_center for the centre (fit accuracy is judged separately by L2)"]
-REQUIRED_TAGS = {"all": ["rows>0", "straight", "curved", "two_point", "ignore_four", "taubin", "fourfold", "axis_aligned", "lens"]}
+REQUIRED_TAGS = {"all": ["rows>0", "straight", "curved", "two_point", "ignore_four", "taubin", "fourfold", "axis_aligned", "lens", "mixed_point_counts"]}
 
 L1_TOL = 1e-11
 
@@ -176,6 +176,7 @@ def evaluate_matrix(at, k, cm, fit, ignore_four, lab=None, want_obs=False):
     return viol, known, sorted(set(tags)), obs
 
 
+MIXED = [["mod3", 0, 3, 1], ["mod3", 5, 2, 0], ["mod3", 1, 16, 2]]      # different numbers of points on different interfaces
 MOBS = [["m", 0.05, 0.02], ["id"], ["m", 1e-4, 0.0], ["m", 0.01, 0.0], ["m", 0.12, 0.05], ["mc", 0.05, 0.02], ["mc", 0.12, 0.05], ["idc"]]
 
 
@@ -236,7 +237,7 @@ class Geometry(ProductSystem):
                 "rot": rots,
                 "trans": [[0, 0], [3, 1], [-10, 4], [0.5, -7]],
                 "scale": [1.0, 1e-3, 1e3],
-                "k": [3] + [x for x in range(0, 17) if x != 3],
+                "k": [3] + [x for x in range(0, 17) if x != 3] + MIXED,
                 "fit": ["dlite", "taubinSVD"],
                 "ign": [False, True],
             }
@@ -250,6 +251,8 @@ class Geometry(ProductSystem):
         tags.append("straight" if cfg["mob"][0] in ("id", "idc") else "curved")
         if cfg["k"] == 0:
             tags.append("two_point")
+        if isinstance(cfg["k"], list):
+            tags.append("mixed_point_counts")
         if cfg["ign"]:
             tags.append("ignore_four")
         if cfg["fit"] == "taubinSVD":
@@ -349,14 +352,14 @@ class Lattices(ProductSystem):
 
     def axes(self, base):
         return {"rot": [0.0] + [2 * math.pi * i / self.nrot for i in range(1, self.nrot)] + [math.pi / 2, math.pi, 1e-7],
-                "k": [2, 0, 1, 5],
+                "k": [2, 0, 1, 5] + MIXED,
                 "ign": [False, True],
                 "fit": ["dlite", "taubinSVD"]}
 
     def eval_config(self, base, cfg):
         at = lattice(base)
         cm = T.CMap([T.rot(cfg["rot"])]) if cfg["rot"] else T.CMap()
-        if base == "lens" and cfg["k"] == 0:
+        if T.coincident_two_point(at, cfg["k"]):
             # with two points per interface the two sides of the lens are the same pair of vertices: not a planar mesh
             return {"viol": [], "tags": ["lens_k0_outside"], "cls": "lens-k0", "outdom": True, "obs": None}
         viol, known, tags, obs = evaluate_matrix(at, cfg["k"], cm, cfg["fit"], cfg["ign"], want_obs=True)
@@ -365,6 +368,8 @@ class Lattices(ProductSystem):
             tags.append("ignore_four")
         if cfg["k"] == 0:
             tags.append("two_point")
+        if isinstance(cfg["k"], list):
+            tags.append("mixed_point_counts")
         ref = RT.reference_system(at, cm, False)
         if any(len(ref["ends"][j]) >= 4 for j in ref["rows"]):
             tags.append("fourfold")
